@@ -1769,6 +1769,185 @@ theorem mergeOrdered_is_interleaving : ∀ (l1 l2 : List α) (d : Drv),
 example : streamOrderAuto [1, 2, 3] ⟨[1, 0], []⟩ = some ([2, 1, 3], ⟨[], [.u 1 2 1, .u 0 2 1]⟩) := by decide
 
 
+/-! ### KeyedSingletonHook: per-key snapshots -/
+
+/-- what one decision of a `KeyedSingletonHook` does, entry by entry in iteration order, threading the
+`last_released` map: a key's snapshot is re-released unchanged (buffer untouched), withheld (only a key
+never released before), or a buffered version is released and everything older is dropped -/
+inductive KSnapRel [DecidableEq κ] : List (κ × α) → KMap κ α → List (κ × α × Bool) → KMap κ α → List (κ × α) → Prop
+  | nil {last} : KSnapRel last [] [] [] last
+  | unchanged {last k q l m rel m' last'} : lookup k last = some l → KSnapRel last m rel m' last' →
+      KSnapRel last ((k, q) :: m) ((k, l, false) :: rel) ((k, q) :: m') last'
+  | withheld {last k q m rel m' last'} : lookup k last = none → q ≠ [] → KSnapRel last m rel m' last' →
+      KSnapRel last ((k, q) :: m) rel ((k, q) :: m') last'
+  | fresh {last k skipped x q' m rel m' last'} : KSnapRel (insertKV k x last) m rel m' last' →
+      KSnapRel last ((k, skipped ++ x :: q') :: m) ((k, x, true) :: rel) ((k, q') :: m') last'
+
+theorem keyedSingleton_release_shape [DecidableEq κ] : ∀ (m : KMap κ α) (remaining : Nat) (force : Bool)
+    (last : List (κ × α)) (d : Drv) {rel : List (κ × α × Bool)} {m' : KMap κ α} {last' : List (κ × α)}
+    {nt : Bool} {d' : Drv},
+    keyedSingLoop m remaining force last d = some (rel, m', last', nt, d') →
+    KSnapRel last m rel m' last' ∧ nt = rel.any (fun e => e.2.2) := by
+  intro m
+  induction m with
+  | nil =>
+    intro remaining force last d rel m' last' nt d' h
+    simp only [keyedSingLoop, Option.some.injEq, Prod.mk.injEq] at h
+    obtain ⟨rfl, rfl, rfl, rfl, _⟩ := h
+    exact ⟨.nil, rfl⟩
+  | cons e rest ih =>
+    obtain ⟨k, q⟩ := e
+    intro remaining force last d rel m' last' nt d' h
+    unfold keyedSingLoop at h
+    split at h
+    · split at h
+      · simp at h
+      · rename_i l hl
+        split at h
+        · simp at h
+        · rename_i hrec
+          simp only [Option.some.injEq, Prod.mk.injEq] at h
+          obtain ⟨rfl, rfl, rfl, rfl, _⟩ := h
+          obtain ⟨i1, i2⟩ := ih _ _ _ _ hrec
+          exact ⟨.unchanged hl i1, by simp [i2]⟩
+    · rename_i hq
+      have hqne : q ≠ [] := by intro hh; subst hh; simp at hq
+      simp only at h
+      generalize hsd : d.boolIf (!(force && remaining - 1 == 0) && (lookup k last).isSome) = sd at h
+      obtain ⟨rr, d1⟩ := sd
+      simp only at h
+      split at h
+      · split at h
+        · simp at h
+        · rename_i l hl
+          split at h
+          · simp at h
+          · rename_i hrec
+            simp only [Option.some.injEq, Prod.mk.injEq] at h
+            obtain ⟨rfl, rfl, rfl, rfl, _⟩ := h
+            obtain ⟨i1, i2⟩ := ih _ _ _ _ hrec
+            exact ⟨.unchanged hl i1, by simp [i2]⟩
+      · generalize hsd2 : d1.boolIf (!(force && remaining - 1 == 0) && (lookup k last).isNone) = sd2 at h
+        obtain ⟨nr, d2⟩ := sd2
+        simp only at h
+        split at h
+        · rename_i hnr
+          have hnone : lookup k last = none := by
+            cases hl : lookup k last with
+            | none => rfl
+            | some _ => simp [hl, Drv.boolIf] at hsd2; simp_all
+          split at h
+          · simp at h
+          · rename_i hrec
+            simp only [Option.some.injEq, Prod.mk.injEq] at h
+            obtain ⟨rfl, rfl, rfl, rfl, _⟩ := h
+            obtain ⟨i1, i2⟩ := ih _ _ _ _ hrec
+            exact ⟨.withheld hnone hqne i1, i2⟩
+        · split at h
+          · simp at h
+          · rename_i idx d3 hidx
+            split at h
+            · simp at h
+            · rename_i item qrest hdrop
+              split at h
+              · simp at h
+              · rename_i hrec
+                simp only [Option.some.injEq, Prod.mk.injEq] at h
+                obtain ⟨rfl, rfl, rfl, rfl, _⟩ := h
+                obtain ⟨i1, _⟩ := ih _ _ _ _ hrec
+                have hq' : q = q.take idx ++ item :: qrest := by
+                  rw [← hdrop, List.take_append_drop]
+                rw [hq']
+                refine ⟨?_, by simp⟩
+                have := KSnapRel.fresh (k := k) (skipped := q.take idx) (x := item) (q' := qrest) i1
+                simpa [← hq'] using this
+
+theorem aux_lookup_insertKV_ne [DecidableEq κ] (k k0 : κ) (x : α) (last : List (κ × α)) (h : k0 ≠ k) :
+    lookup k (insertKV k0 x last) = lookup k last := by
+  induction last with
+  | nil => simp [insertKV, lookup, h]
+  | cons e r ih =>
+    obtain ⟨k1, v1⟩ := e
+    unfold insertKV
+    split
+    · rename_i h1; subst h1; simp [lookup, h]
+    · rename_i h1
+      by_cases h2 : k1 = k
+      · simp [lookup, h2]
+      · simp [lookup, h2, ih]
+
+theorem aux_kSnapRel_keys [DecidableEq κ] {last last' : List (κ × α)} {m m' : KMap κ α} {rel : List (κ × α × Bool)}
+    (h : KSnapRel last m rel m' last') : ∀ e ∈ rel, e.1 ∈ m.map Prod.fst := by
+  induction h with
+  | nil => simp
+  | unchanged _ _ ih =>
+    intro e he
+    simp only [List.mem_cons] at he
+    rcases he with rfl | he
+    · simp
+    · simp only [List.map_cons, List.mem_cons]; exact Or.inr (ih e he)
+  | withheld _ _ _ ih =>
+    intro e he
+    simp only [List.map_cons, List.mem_cons]; exact Or.inr (ih e he)
+  | fresh _ ih =>
+    intro e he
+    simp only [List.mem_cons] at he
+    rcases he with rfl | he
+    · simp
+    · simp only [List.map_cons, List.mem_cons]; exact Or.inr (ih e he)
+
+/-- Per key, a `KeyedSingletonHook` never goes back to an older version: with values tagged by their
+version (buffer strictly increasing, last released older than everything buffered), whatever is
+released for a key is at least as new as that key's last released snapshot, and a new snapshot comes
+from the buffer. -/
+theorem keyedSingleton_version_monotone [DecidableEq κ] {last last' : List (κ × (Nat × β))}
+    {m m' : KMap κ (Nat × β)} {rel : List (κ × (Nat × β) × Bool)}
+    (h : KSnapRel last m rel m' last') (hnd : (m.map Prod.fst).Nodup) :
+    ∀ k x b, (k, x, b) ∈ rel → ∀ q, (k, q) ∈ m →
+      (∀ l, lookup k last = some l → ∀ y ∈ q, l.1 < y.1) →
+      (∀ l, lookup k last = some l → l.1 ≤ x.1) ∧ (b = true → x ∈ q) ∧ (b = false → lookup k last = some x) := by
+  induction h with
+  | nil => intro k x b hx; simp at hx
+  | @unchanged last k0 q0 l m0 rel0 m0' last0' hl hrest ih =>
+    simp only [List.map_cons, List.nodup_cons] at hnd
+    intro k x b hx q hq hinv
+    simp only [List.mem_cons, Prod.mk.injEq] at hx hq
+    rcases hx with ⟨rfl, rfl, rfl⟩ | hx
+    · rcases hq with ⟨_, rfl⟩ | hq
+      · exact ⟨fun l' hl' => by rw [hl] at hl'; simp at hl'; subst hl'; exact Nat.le_refl _, by simp, fun _ => hl⟩
+      · exact absurd (List.mem_map.mpr ⟨(k, q), hq, rfl⟩) hnd.1
+    · rcases hq with ⟨rfl, rfl⟩ | hq
+      · exact absurd (aux_kSnapRel_keys hrest _ hx) hnd.1
+      · exact ih hnd.2 k x b hx q hq hinv
+  | @withheld last k0 q0 m0 rel0 m0' last0' hl _ hrest ih =>
+    simp only [List.map_cons, List.nodup_cons] at hnd
+    intro k x b hx q hq hinv
+    simp only [List.mem_cons, Prod.mk.injEq] at hq
+    rcases hq with ⟨rfl, rfl⟩ | hq
+    · exact absurd (aux_kSnapRel_keys hrest _ hx) hnd.1
+    · exact ih hnd.2 k x b hx q hq hinv
+  | @fresh last k0 skipped x0 q0' m0 rel0 m0' last0' hrest ih =>
+    simp only [List.map_cons, List.nodup_cons] at hnd
+    intro k x b hx q hq hinv
+    simp only [List.mem_cons, Prod.mk.injEq] at hx hq
+    rcases hx with ⟨rfl, rfl, rfl⟩ | hx
+    · rcases hq with ⟨_, rfl⟩ | hq
+      · exact ⟨fun l' hl' => Nat.le_of_lt (hinv l' hl' x (by simp)), fun _ => by simp, by simp⟩
+      · exact absurd (List.mem_map.mpr ⟨(k, q), hq, rfl⟩) hnd.1
+    · rcases hq with ⟨rfl, rfl⟩ | hq
+      · exact absurd (aux_kSnapRel_keys hrest _ hx) hnd.1
+      · have hne : k0 ≠ k := by
+          intro heq; subst heq
+          exact hnd.1 (List.mem_map.mpr ⟨(k0, q), hq, rfl⟩)
+        have := ih hnd.2 k x b hx q hq (by rw [aux_lookup_insertKV_ne k k0 x0 last hne]; exact hinv)
+        rw [aux_lookup_insertKV_ne k k0 x0 last hne] at this
+        exact this
+
+
+example : keyedSingLoop (κ := Nat) (α := Nat × Nat) [(7, [(1, 10), (2, 20)]), (9, [])] 1 false [(9, (0, 5))] ⟨[0, 1], []⟩
+    = some ([(7, (2, 20), true), (9, (0, 5), false)], [(7, []), (9, [])], [(9, (0, 5)), (7, (2, 20))], true,
+        ⟨[], [.u 0 1 1, .b false]⟩) := by rfl
+
 /-! ### F36: the unconditional form of the clause is refuted by the code that exists -/
 
 /-- "every tick the scheduler may run completes `run_hooks` with a release" fails: a tick made of a
